@@ -1,5 +1,73 @@
-(* C09 — placeholder until WireProofs are in: statements follow. *)
-From PBK Require Import Base Descr Walk Wire Nested.
-Theorem C09_flat_node_value : forall attrs i, flat_node attrs (WValue i) = assoc_attrs_of attrs i ++ [i].
-Proof. reflexivity. Qed.
-Print Assumptions C09_flat_node_value.
+(* C09 — the hierarchical view contains every decoded value exactly once, in an
+   arrangement from which the flat order is recovered.
+
+   Modelled: templatedata.py TemplateData.wire (Wire.v), renderer.py
+   NestedJsonRenderer as a tree of indices (Nested.v), and utils.py
+   template_data_nested_json_to_flat_json (Nested.nested_to_flat).
+   The text renderings (flat text, nested text) and their parsers are string
+   formatting; they are exercised on the real code by the differential check
+   (harness/props/C09.py), not modelled: see DESIGN.md. *)
+From PBK Require Import Base Descr Walk Wire Nested WireProofs NestedProofs.
+
+(* 1. the wired tree, read members-in-order with associated fields before their
+      owner and a replication factor before the repetitions, is 0, 1, ..., n-1 *)
+Theorem C09_wire_flat_order :
+  forall ndesc vals links T nodes s,
+    wire ndesc vals links T = Ok (nodes, s) ->
+    flat_nodes (x_attrs s) nodes = span 0 (x_next s).
+Proof. exact wire_flat_order. Qed.
+Print Assumptions C09_wire_flat_order.
+
+(* 2. hence every flat index occurs exactly once in the hierarchical view *)
+Theorem C09_each_index_once :
+  forall ndesc vals links T nodes s,
+    wire ndesc vals links T = Ok (nodes, s) ->
+    NoDup (flat_nodes (x_attrs s) nodes) /\
+    forall i, In i (flat_nodes (x_attrs s) nodes) <-> (i < x_next s)%N.
+Proof. exact wire_each_index_once. Qed.
+Print Assumptions C09_each_index_once.
+
+(* 3. replication nodes hold whole repetitions: the member list has
+      n_members * n_repeats entries, so cutting it into repetitions loses nothing *)
+Theorem C09_whole_repetitions :
+  forall ndesc vals links T nodes s,
+    wire ndesc vals links T = Ok (nodes, s) -> wf_nodes vals nodes.
+Proof.
+  intros ndesc vals links T nodes s E. unfold wire in E.
+  destruct (proj2 (wire_wf ndesc vals links) T _ _ _ _ E) as (new & -> & _ & W). exact W.
+Qed.
+Print Assumptions C09_whole_repetitions.
+
+(* 4. nested JSON -> flat: NestedJsonRenderer's image of the wired tree,
+      converted by template_data_nested_json_to_flat_json, lists 0..n-1 in order.
+      The hypothesis ties the labels to the wiring: an attribute was attached as
+      an associated field iff its decoded descriptor is an AssociatedDescriptor
+      (this is compared against the real renderer's 'virtual' flags by the check). *)
+Theorem C09_nested_json_to_flat :
+  forall ndesc vals links T nodes s is_assoc_label k,
+    wire ndesc vals links T = Ok (nodes, s) ->
+    (forall o a b, In (o, a, b) (x_attrs s) -> is_assoc_label a = b) ->
+    nested_to_flat (render_nodes (x_attrs s) is_assoc_label vals (S k) nodes) = span 0 (x_next s).
+Proof. exact nested_to_flat_render. Qed.
+Print Assumptions C09_nested_json_to_flat.
+
+(* non-vacuity: 204008 (associated field) around an element, a delayed
+   replication with two repetitions, a quality element: wiring succeeds and the
+   hypotheses of (4) hold *)
+Definition ex_elem (id : N) : desc := DElem (mkElem id [] 0 0 8).
+Definition ex_T : descs :=
+  DCons (DOper 204008) (DCons (ex_elem 31021) (DCons (ex_elem 12001) (DCons (DOper 204000)
+  (DCons (DDelayed 101000 (ex_elem 31001) (DCons (ex_elem 12001) DNil))
+  (DCons (DFixed 102002 (DCons (ex_elem 1001) (DCons (ex_elem 1002) DNil))) DNil))))).
+Definition ex_vals : list value :=
+  [VInt 1; VInt 3; VInt 280; VInt 2; VInt 10; VInt 11; VInt 1; VInt 2; VInt 3; VInt 4].
+Example C09_nonvacuous :
+  exists nodes s,
+    wire 10 ex_vals [] ex_T = Ok (nodes, s) /\ x_next s = 10%N /\
+    (forall o a b, In (o, a, b) (x_attrs s) -> N.eqb 1 a = b) /\
+    nested_to_flat (render_nodes (x_attrs s) (N.eqb 1) ex_vals 3 nodes) = [0;1;2;3;4;5;6;7;8;9]%N.
+Proof.
+  eexists; eexists. split; [vm_compute; reflexivity|]. split; [reflexivity|]. split.
+  - cbn. intros o a b H. repeat (destruct H as [H|H]; [injection H as <- <- <-; reflexivity|]). destruct H.
+  - vm_compute. reflexivity.
+Qed.
